@@ -34,17 +34,17 @@ type RetKey struct {
 type EdgeKind uint8
 
 const (
-	EAssign   EdgeKind = iota // operand -> result of a pure SSA instruction
-	EStore                    // value -> location
-	ELoad                     // location -> value
-	EField                    // base value -> field access result (deep taint)
-	ECallArg                  // argument -> parameter (first-party callee)
-	ECallRet                  // return operand -> call result
-	EExtArg                   // argument -> result of an external call
-	EExtWrite                 // argument -> reference-typed argument of an external call
-	EAlias                    // back edge between aliases (param -> arg for reference types, freevar -> binding)
-	EMapRange                 // map -> element obtained by ranging over it
-	ESerialize                // field of a message type -> bytes produced by serialising it
+	EAssign    EdgeKind = iota // operand -> result of a pure SSA instruction
+	EStore                     // value -> location
+	ELoad                      // location -> value
+	EField                     // base value -> field access result (deep taint)
+	ECallArg                   // argument -> parameter (first-party callee)
+	ECallRet                   // return operand -> call result
+	EExtArg                    // argument -> result of an external call
+	EExtWrite                  // argument -> reference-typed argument of an external call
+	EAlias                     // back edge between aliases (param -> arg for reference types, freevar -> binding)
+	EMapRange                  // map -> element obtained by ranging over it
+	ESerialize                 // field of a message type -> bytes produced by serialising it
 )
 
 var kindNames = []string{"assign", "store", "load", "field", "arg", "ret", "ext", "extwrite", "alias", "maprange", "serialize"}
